@@ -2,10 +2,10 @@
 package main
 
 import (
-	"sync"
 	"fmt"
 	"runtime"
 	"strings"
+	"sync"
 	"time"
 
 	"github.com/google/mtail/internal/metrics"
